@@ -252,7 +252,11 @@ func run(repo, dir string, seed uint64, nunits, nvalues int, cfg idlgen.Config, 
 			key := fmt.Sprintf("%s:%d", u.Key, sidx)
 			add("N "+key, &check{unit: u, sidx: sidx, what: "N", expect: st.Initial()})
 			if u.Tag == "directed" {
-				for _, v := range directedValues() {
+				vs := directedValues()
+				if st.Name == "Num" {
+					vs = directedNumValues()
+				}
+				for _, v := range vs {
 					genOps(r, u, sidx, key, v, add, out)
 				}
 				continue
